@@ -464,7 +464,7 @@ class AutoQKHyperModel(HyperModel):
           layer_d['pointwise_quantizer'] = pointwise_quantizer_dict[layer.name]
 
         if layer.__class__.__name__ in ["LSTM", "GRU", "Bidirectional"]:
-          layer_d['recurrent_activation'], _  = self._get_quantizer(
+          layer_d['recurrent_activation_quantizer'], _  = self._get_quantizer(
               hp, layer.name + "_recurrent_activation", layer.name,
               layer.__class__.__name__, is_kernel=False)
 
@@ -473,7 +473,7 @@ class AutoQKHyperModel(HyperModel):
           layer_d["bias_quantizer"], bits = self._get_quantizer(
               hp, layer.name + "_bias", layer.name, layer.__class__.__name__,
               is_kernel=False)
-          layer_d["activation"], bits = self._get_quantizer(
+          layer_d["activation_quantizer"], bits = self._get_quantizer(
               hp, layer.name + "_activation", layer.name,
               layer.__class__.__name__, is_kernel=False)
           q_dict[layer.name] = layer_d 
@@ -496,7 +496,7 @@ class AutoQKHyperModel(HyperModel):
               is_linear = layer.activation.__name__ == "linear"
 
           if not is_softmax and not is_linear:
-            layer_d["activation"], bits = self._get_quantizer(
+            layer_d["activation_quantizer"], bits = self._get_quantizer(
                 hp, layer.name + "_activation", layer.name,
                 layer.__class__.__name__, is_kernel=False)
 
